@@ -46,7 +46,9 @@ def gen_case(rng, idx, tier):
     slices = []
     for _ in range(3):
         slices.append([rng.choice([None, rng.randint(-n, n)]), rng.choice([None, rng.randint(-n, n)]), rng.choice([None, 1, 2, -1, -2, 3])])
-    return {"U": lib.enc(U), "W": lib.enc(W), "numtype": nt, "params": lib.enc(params), "idxs": idxs, "slices": slices}
+    jorder = list(range(p + 1))
+    rng.shuffle(jorder)
+    return {"U": lib.enc(U), "W": lib.enc(W), "numtype": nt, "params": lib.enc(params), "idxs": idxs, "slices": slices, "jorder": jorder}
 
 
 def run_case(case, ctx):
@@ -98,7 +100,13 @@ def run_case(case, ctx):
     def seq_ok(got, wants):
         return isinstance(got, (tuple, list, np.ndarray)) and len(got) == len(wants) and all(same(g, w) for g, w in zip(got, wants))
 
-    for j in range(p + 1):
+    # sub-degrees are requested in a random order, and the lowest ones once more at the end: a table must not depend
+    # on which other tables of the same knot vector were built before
+    jseq = list(case.get("jorder") or range(p + 1)) + [0, min(1, p)]
+    seen_j = set()
+    for j in jseq:
+        requery = j in seen_j
+        seen_j.add(j)
         # full table with sequence argument: f[:, j](us)
         o = call(lambda: f[:, j](tuple(pn)))
         if ctx.check(o.ok, f"basis:raises:{o.exc_name}:{kind}", f"f[:, {j}](nodes) raised {o.brief()}") and judged:
@@ -123,6 +131,8 @@ def run_case(case, ctx):
                                 ctx.check(Uq[i] <= uq <= Uq[i + j + 1], "basis:support", f"N_{i},{j}({params[k]}) = {v} outside its support")
                         if j == p:
                             ctx.check(abs(sum(vals) - 1) <= 1e-9 if not exact else sum(ref.fr(x) for x in col) == 1, "basis:sum", f"sum_i f[i,{p}]({params[k]}) != 1")
+        if requery:
+            continue
         # single index, scalar and sequence u
         for i in case["idxs"]:
             o = call(lambda: f[i, j])
